@@ -61,6 +61,9 @@ type State struct {
 
 var registry = map[string]*Subsystem{}
 
+// atExit functions run when the stream is finished (scratch space outside State.Dir).
+var atExit []func()
+
 func Register(s *Subsystem) { registry[s.Name] = s }
 
 // Rand is splitmix64; every random choice of a run derives from one seed.
@@ -90,7 +93,7 @@ func (r *Rand) Bytes(n int) []byte {
 	}
 	return b
 }
-func (r *Rand) Fork() *Rand { return NewRand(r.U64()) }
+func (r *Rand) Fork() *Rand         { return NewRand(r.U64()) }
 func Pick[T any](r *Rand, xs []T) T { return xs[r.Intn(len(xs))] }
 
 // Catch runs f and converts a panic of the code under test into ("panic", true).
@@ -182,6 +185,11 @@ func main() {
 		panic(err)
 	}
 	defer os.RemoveAll(dir)
+	defer func() {
+		for _, f := range atExit {
+			f()
+		}
+	}()
 
 	opsF := mustCreate(*opsPath)
 	outF := mustCreate(*outPath)
